@@ -202,6 +202,8 @@ class d3TimeScaleMilliseconds(object):
         pass
 
     def range(self, start, stop, step):
+        # the tick step is integral here but may arrive as a float (0.1 * 10)
+        step = int(step)
         return list(
             map(
                 milli2dt,
